@@ -1,5 +1,8 @@
 import Sqljson.Audit
 import Sqljson.Props.C20
+import Sqljson.Props.C20b
 import Sqljson.Props.GenFacts
 #audit_ns C20 Sqljson.C20
+#audit_ns C20 Sqljson.C20b
+#audit C20 [Sqljson.Exec.Cancel.sim_all, Sqljson.Exec.Cancel.mono_all, Sqljson.Api.Cancel.run_sim]
 #audit C20 [Sqljson.GenFacts.cancel_site_class, Sqljson.GenFacts.raise_unchanged]
